@@ -17,7 +17,7 @@ impl EdgeList {
         forall|a: int, b: int| !r.has(a, b),
     @*/
 
-    /*@fn impl=EdgeList trait=RandomRecursiveTree name=random_recursive_tree loopify=BTreeSet fuse props=C15,C13
+    /*@fn impl=EdgeList trait=RandomRecursiveTree name=random_recursive_tree loopify=BTreeSet noisolation fuse props=C15,C13
     ensures
         order >= 1,
         r.wf(),
@@ -48,7 +48,7 @@ impl EdgeList {
     // opaque total operations, exactly as in units/inc/random_more.inc.rs) and `next_f64` is unconstrained.
     // E14/E14b: outer `collect()` -> BTreeSet `vx_acc1` (loops 1, 2), inner `collect::<Vec<_>>()` -> Vec `vx_acc2` (loop 3 over
     // `vx_chain(0..u, (u + 1)..order)`, the `filter` / `map` stages fused into its body).
-    /*@fn impl=EdgeList trait=ErdosRenyi name=erdos_renyi loopify=BTreeSet,Vec fuse wrap=chain props=C15,C13
+    /*@fn impl=EdgeList trait=ErdosRenyi name=erdos_renyi loopify=BTreeSet,Vec noisolation fuse wrap=chain props=C15,C13
     ensures
         order >= 1,
         r.wf(),
